@@ -2,7 +2,8 @@
   Props/C16Full.lean — the module audited for C16: Props/C16Surplus.lean (and what it imports) together with
   Props/C16Ieee.lean (the IEEE / real-analysis instantiations) and Props/C16IeeeBezierDiverge.lean (F23: the Bezier
   flattening loop diverges in f32 on a finite input) and Props/C16IeeeCut.lean (where the re-projected end point lies in
-  f32: rounding-error bounds for the cut and the extension). All in namespace Rosu.C16.
+  f32: rounding-error bounds for the cut and the extension) and Props/C16IeeeCut2.lean (the range of the cut parameter with
+  the f32 <-> f64 conversions proved exact / correctly rounded, Lemmas/FloatErrCvt.lean). All in namespace Rosu.C16.
 -/
 import RosuModel.Props.C16Surplus
 import RosuModel.Props.C16Ieee
@@ -11,3 +12,4 @@ import RosuModel.Props.C16IeeeAdj
 import RosuModel.Props.C16IeeeAdjWitness
 import RosuModel.Props.C16IeeeBezierDiverge
 import RosuModel.Props.C16IeeeCut
+import RosuModel.Props.C16IeeeCut2
